@@ -36,6 +36,8 @@ type c15querier struct {
 	membership string
 	known      bool
 	stateErr   bool
+	// memberOf, when set, is the only sender ID the membership table knows (pseudo-ID rooms key members by room key)
+	memberOf spec.SenderID
 }
 
 func (q *c15querier) CurrentStateEvent(ctx context.Context, roomID spec.RoomID, eventType string, stateKey string) (gmsl.PDU, error) {
@@ -51,6 +53,9 @@ func (q *c15querier) RestrictedRoomJoinInfo(ctx context.Context, roomID spec.Roo
 	return q.info[roomID.String()], nil
 }
 func (q *c15querier) CurrentMembership(ctx context.Context, roomID spec.RoomID, senderID spec.SenderID) (string, error) {
+	if q.memberOf != "" && senderID != q.memberOf {
+		return "", nil
+	}
 	return q.membership, nil
 }
 func (q *c15querier) IsKnownRoom(ctx context.Context, roomID spec.RoomID) (bool, error) {
@@ -174,6 +179,7 @@ func runC15(c *mon.Ctx) {
 			c15SendJoin(c, sr, sc, b)
 			c15Invite(c, sr, sc, b)
 			c15InviteV3(c, sr, sc)
+			c15SendJoinPseudoID(c, sr)
 			c15PerformJoin(c, sr, sc, b)
 		}
 	}
@@ -605,6 +611,76 @@ func c15InviteV3(c *mon.Ctx, r *gen.Rand, sc *simScenario) {
 	}
 }
 
+// c15SendJoinPseudoID: send_join in a pseudo-ID room, where the joiner is known to the room by a per-room key, the
+// event is signed by that key and carries an mxid_mapping signed by the user's server. Guards: the mapping's user
+// belongs to the requesting server, the mapping is validly signed by that server, the joiner is not banned (the
+// membership table is keyed by the room key, as the room is).
+func c15SendJoinPseudoID(c *mon.Ctx, r *gen.Rand) {
+	ver := gmsl.RoomVersionPseudoIDs
+	t := ref.Traits(string(ver))
+	local := serverIdentity(c15local)
+	names := []string{"sender-of-requesting-server", "mapping-signature-valid", "not-banned"}
+	for _, vec := range guardVectors(r, len(names), 0) {
+		roomKey := gen.NewIdentity(r, "unused.example", "ed25519:1")
+		pseudo := spec.SenderIDFromPseudoIDKey(roomKey.Priv)
+		user := "@joiner:other.example"
+		signer := serverIdentity("other.example")
+		if !vec[1] {
+			signer = gen.NewIdentity(r, "other.example", signer.KeyID)
+		}
+		mapping := gmsl.MXIDMapping{UserID: user, UserRoomKey: pseudo}
+		if err := mapping.Sign("other.example", gmsl.KeyID(signer.KeyID), signer.Priv); err != nil {
+			continue
+		}
+		content, err := json.Marshal(gmsl.MemberContent{Membership: "join", MXIDMapping: &mapping})
+		if err != nil {
+			continue
+		}
+		eb := gmsl.MustGetRoomVersion(ver).NewEventBuilderFromProtoEvent(&gmsl.ProtoEvent{SenderID: string(pseudo), RoomID: "!pseudo:origin.example", Type: "m.room.member", StateKey: strp(string(pseudo)),
+			PrevEvents: []string{fakeEventID(r, t)}, AuthEvents: []string{fakeEventID(r, t)}, Depth: 5, Content: content})
+		ev, err := eb.Build(baseTime, spec.ServerName(pseudo), "ed25519:1", roomKey.Priv)
+		if err != nil {
+			continue
+		}
+		origin := spec.ServerName("other.example")
+		if !vec[0] {
+			origin = "evil.example"
+		}
+		existing := gen.Pick(r, []string{"", "leave", "invite"})
+		if !vec[2] {
+			existing = "ban"
+		}
+		room, _ := spec.NewRoomID("!pseudo:origin.example")
+		name := "send_join_pseudo_id:" + vecName(names, vec)
+		c.Case(name, map[string]any{"guards": vecName(names, vec), "existing_membership": existing, "event": string(ev.JSON())}, func() {
+			q := &c15querier{membership: existing, memberOf: pseudo}
+			resp, err := gmsl.HandleSendJoin(gmsl.HandleSendJoinInput{Context: context.Background(), RoomID: *room, EventID: ev.EventID(), JoinEvent: ev.JSON(), RoomVersion: ver, RequestOrigin: origin,
+				LocalServerName: spec.ServerName(c15local), KeyID: gmsl.KeyID(local.KeyID), PrivateKey: local.Priv, Verifier: c14ring, MembershipQuerier: q,
+				UserIDQuerier: func(roomID spec.RoomID, senderID spec.SenderID) (*spec.UserID, error) {
+					if senderID == pseudo {
+						return spec.NewUserID(user, true)
+					}
+					return nil, errors.New("unknown sender")
+				},
+				StoreSenderIDFromPublicID: func(ctx context.Context, senderID spec.SenderID, userID string, id spec.RoomID) error { return nil }})
+			c15verdict(c, "send_join_pseudo_id", name, allTrue(vec), err == nil, vecName(names, vec), ver)
+			if err != nil {
+				return
+			}
+			if resp.JoinEvent == nil {
+				c.Failf("send_join_pseudo_id:no-event-returned", "HandleSendJoin succeeded without an event")
+				return
+			}
+			if !localSigValid(resp.JoinEvent, t, local) {
+				c.Failf("send_join_pseudo_id:local-signature-missing-or-invalid", "the join returned by HandleSendJoin carries no valid signature of the local server: %s", resp.JoinEvent.JSON())
+			}
+			if !sameSignedContent(resp.JoinEvent.JSON(), ev.JSON(), t) {
+				c.Failf("send_join_pseudo_id:event-modified", "HandleSendJoin returned a modified event")
+			}
+		})
+	}
+}
+
 // ---- PerformJoin ----
 
 type scriptedJoinClient struct {
@@ -701,12 +777,25 @@ func c15PerformJoinOn(c *mon.Ctx, r *gen.Rand, sc *simScenario, rb *simBranch, v
 			return
 		}
 		var resp sjResp
+		// with a forged join-rules event, half of the time a second forgery sits right before it in the list (a
+		// response check that drops failing events while iterating must not skip the neighbour)
+		var decoy gmsl.PDU
+		if !vec[3] && r.Chance(0.5) {
+			for _, p := range state {
+				if t := p.Type(); t == "m.room.topic" || t == "m.room.name" || t == "com.example.custom" || (t == "m.room.member" && !p.StateKeyEquals(s.users[0]) && !p.StateKeyEquals(joiner)) {
+					decoy = p
+				}
+			}
+		}
 		for _, p := range state {
 			js := p.JSON()
-			if p.Type() == "m.room.create" {
-				continue // the create event is added below
+			if p.Type() == "m.room.create" || (decoy != nil && p.EventID() == decoy.EventID()) {
+				continue // the create event is added below, the decoy next to the join rules
 			}
 			if !vec[3] && p.Type() == "m.room.join_rules" {
+				if decoy != nil {
+					resp.state = append(resp.state, corruptSig(decoy))
+				}
 				js = corruptSig(p)
 			}
 			resp.state = append(resp.state, js)
